@@ -11,10 +11,19 @@ const vc08Alphabet = " :,.=-0a>&\xc3\xff"
 // symbolic holes (a panic or a run-away loop is a violation).  BV8.
 func VH_C08_ReadTemplates() {
 	format := choose(3)
-	// one template line after the valid prefix; holes of 0..2 (quick) / 0..3 (thorough) bytes. Two template lines were
+	// one template line after the valid prefix; holes of 0..2 bytes (thorough: the first hole 0..3). Two template lines were
 	// tried: tens of millions of paths, not finished in 40 min, so they are outside the bound.
-	nh, nl := vbound("holebytes", 2, 3), 1
-	hole := func() string { return vsymstr(choose(nh+1), vc08Alphabet) }
+	// (thorough with every hole up to 3 bytes: 445 000 paths explored in 40 min and not finished; the first hole of the
+	// line goes up to 3 bytes, the others up to 2.)
+	nh, nl := vbound("first hole bytes", 2, 3), 1
+	nholes := 0
+	hole := func() string {
+		nholes++
+		if nholes > 1 {
+			return vsymstr(choose(3), vc08Alphabet)
+		}
+		return vsymstr(choose(nh+1), vc08Alphabet)
+	}
 	var tmpl [][]string
 	switch format {
 	case 0: // srt
